@@ -198,6 +198,23 @@ class Unit:
             elif k == 'EnumDecl':
                 for i, e in enumerate(x for x in d.get('inner', []) if x.get('kind') == 'EnumConstantDecl'):
                     self.enums[e['name']] = i
+        self.reindex()
+
+    def reindex(self):
+        self.by_id = {}
+        self.funcs, self.protos, self.records, self.typedefs, self.vars = {}, {}, {}, {}, {}
+        for d in self.decls:
+            k = d.get('kind')
+            if k == 'FunctionDecl':
+                self.protos.setdefault(d['name'], d)
+                if any(c.get('kind') == 'CompoundStmt' for c in d.get('inner', [])):
+                    self.funcs[d['name']] = d
+            elif k == 'RecordDecl':
+                self.records[d['id']] = d
+            elif k == 'TypedefDecl':
+                self.typedefs[d['name']] = d
+            elif k == 'VarDecl':
+                self.vars[d['name']] = d
         self._index(self.decls)
 
     def _index(self, nodes):
@@ -257,27 +274,80 @@ class Unit:
         return m.group(0).decode() if m else None
 
 
+# units that only hold literal data tables (26 s to dump, no control flow of interest); they are
+# still covered by the LLVM-IR scans (definedness, call graph) and can be requested by name
+DATA_ONLY_UNITS = ('datasets.c',)
+
+KEEP = ('id', 'kind', 'name', 'opcode', 'value', 'type', 'referencedDecl', 'referencedMemberDecl', 'isArrow',
+        'castKind', 'range', 'loc', 'hasElse', 'isPostfix', 'tls', 'storageClass', 'inner', 'decl', 'init',
+        'completeDefinition', 'tagUsed', 'argType', 'isUsed', 'previousDecl', 'hasInit', 'cond', 'variadic')
+
+
+def _slim(n):
+    """Drop what no engine reads; keeps pickles small and memory low."""
+    if isinstance(n, list):
+        return [_slim(x) for x in n if isinstance(x, dict)]
+    out = {}
+    for k in KEEP:
+        if k in n:
+            v = n[k]
+            if k == 'inner':
+                out[k] = [_slim(x) for x in v if isinstance(x, dict)]
+            elif k == 'type':
+                out[k] = {a: b for a, b in v.items() if a in ('qualType', 'desugaredQualType')}
+            elif k in ('decl',):
+                out[k] = {a: b for a, b in v.items() if a in ('id', 'kind', 'name')}
+            elif k == 'referencedDecl':
+                out[k] = {a: (b if a != 'type' else {'qualType': b.get('qualType'), 'desugaredQualType': b.get('desugaredQualType')})
+                          for a, b in v.items() if a in ('id', 'kind', 'name', 'type')}
+            else:
+                out[k] = v
+    return out
+
+
+def _load_one(job):
+    nm, p, _ = job
+    cmd = [CLANG, '-fsyntax-only', '-Xclang', '-ast-dump=json'] + cflags() + [p]
+    pr = subprocess.Popen(cmd, stdout=subprocess.PIPE, stderr=subprocess.PIPE)
+    try:
+        tu = json.load(pr.stdout)
+    except ValueError as e:
+        pr.wait()
+        return nm, None, 'clang failed on %s: %s' % (p, pr.stderr.read().decode()[-400:])
+    err = pr.stderr.read()
+    if pr.wait() != 0:
+        return nm, None, 'clang failed on %s: %s' % (p, err.decode()[-400:])
+    _fix_locations(tu)
+    u = Unit(nm, p, tu)
+    u.decls = [_slim(d) | {'_file': d['_file']} for d in u.decls]
+    u.reindex()
+    return nm, u, None
+
+
 def load_units(names=None, extra_files=None):
-    """Dump and load the given library units (default: all). Returns {name: Unit}."""
-    names = list(names) if names is not None else library_units()
-    d = scratch_dir()
+    """Dump and load the given library units (default: all). Returns {name: Unit}.
+    One worker process per unit (clang -> pipe -> json -> location repair -> prune to repo decls)."""
+    import multiprocessing as mp
+    names = list(names) if names is not None else [u for u in library_units() if u not in DATA_ONLY_UNITS]
+    cflags()            # create the config dir before forking
     jobs = []
     for nm in names:
         p = os.path.join(SRC, nm)
         if not os.path.exists(p):
             raise AnalysisBroken('unit %s listed but missing' % nm)
-        jobs.append((nm, p, os.path.join(d, nm.replace('/', '_') + '.json')))
+        jobs.append((nm, p, None))
     for nm, p in (extra_files or {}).items():
-        jobs.append((nm, p, os.path.join(d, nm.replace('/', '_') + '.json')))
-    with ThreadPoolExecutor(max_workers=min(16, max(1, len(jobs)))) as ex:
-        list(ex.map(lambda j: _dump(j[1], j[2]), jobs))
+        jobs.append((nm, p, None))
     units = {}
-    for nm, p, out in jobs:
-        with open(out, 'rb') as fi:
-            tu = json.load(fi)
-        os.unlink(out)
-        _fix_locations(tu)
-        units[nm] = Unit(nm, p, tu)
+    if len(jobs) <= 4 or os.environ.get('LSV_SEQ'):
+        res = [_load_one(j) for j in jobs]
+    else:
+        with mp.get_context('fork').Pool(min(16, len(jobs))) as pool:
+            res = pool.map(_load_one, jobs, chunksize=1)
+    for nm, u, err in res:
+        if err:
+            raise AnalysisBroken(err)
+        units[nm] = u
     return units
 
 
